@@ -779,7 +779,14 @@ def classify_kani(ob, status, parsed, text):
     if unsupported:
         return "undecided", "unsupported construct reached: " + unsupported[0]["desc"][:200]
     if real_fail:
-        return "refuted", real_fail[0]["desc"]
+        f0 = real_fail[0]
+        named = [f for f in real_fail if "placeholder message" not in f["desc"]]
+        if "placeholder message" in f0["desc"]:
+            # a panic whose message is formatted at run time (e.g. inside core): say where it is
+            f0 = named[0] if named else f0
+            if "placeholder message" in f0["desc"]:
+                return "refuted", "panic (message formatted at run time) at " + f0["loc"][:160]
+        return "refuted", f0["desc"]
     if unwind_fail:
         return "undecided", "unwinding bound too small for the code as it is now: " + unwind_fail[0]["loc"]
     return "undecided", "FAILED without a failing check (%s)" % status
